@@ -199,6 +199,18 @@ def main():
             else:
                 args = ["--bam"] + (DEEP if "deep" in fn else MIXED if "mixed" in fn else BAMS) + ["--ploidy", "4"]
             inputs.append(("golden:" + fn, text, args))
+            # the same file as assemble would print it had no sample carried the reference haplotype (REFMASKED on
+            # records that have ALTs; the repo's BAMs always contain the reference, so real runs only give REFMASKED + NOA)
+            if tier == "thorough" or fn == "simple.output.assemble.vcf":
+                v = vcftext.parse(text)
+                lines = []
+                for r in v.records:
+                    cols = r.line.split("\t")
+                    if r.alts and "REFMASKED" not in r.info:
+                        cols[7] = "REFMASKED;" + cols[7]
+                    lines.append("\t".join(cols))
+                synth = "\n".join(v.meta + ["#" + "\t".join(v.columns)] + lines) + "\n"
+                inputs.append(("synthetic-refmasked:" + fn, synth, args))
     # (c) fresh assemble runs
     base = ["--targets", "@simple.bed.gz", "--variants", "@simple.vcf.gz", "--reference", "@simple.fasta",
             "--mcmc-steps", "300", "--mcmc-burn", "100"]
